@@ -54,17 +54,16 @@ PARTIAL = ["build_strict_layout_partial: proved on the judge's layout domain wfL
            "name, no run of blanks at a wrap point of WrapString(_, 68)): metadata with runs of blanks inside a line is covered; "
            "layout_domain_partition shows wfLayoutJ = theorem domain ∪ C03-blank-run-at-wrap ∪ C03-nameless-locus, and the witnesses "
            "blank_run_at_wrap_record_witness / nameless_locus_witness show the clause fails there (class tag /lay = inside the theorem)",
-           "parse_build (WFSeq x → parse (build x o) ≈ ok x over the parser model of C01): proved as parse_build_partial (Props/C03Parse.lean) under "
-           "`covered x` = wfSeq x && refsFit && GbLayout.wf (toRec x). Since C01's widening the locus is unrestricted (any of the twelve molecule "
-           "types or none, optional topology / division / length string / date; empty reference range; wide key sets; inner quotation marks). "
-           "What `covered` still adds to wfSeq, with the reason: (1) a date, when present, has a real month [C01 isDateText; wfSeq's isDate accepts "
-           "any three capitals]; (2) no quotation mark in a qualifier key [C01 isQualKeyChar: under the 9a46c6b rule such a key breaks value-less / "
-           "unquoted qualifiers, which C01's layouts include]; (3) the location text (cached, or printed from the structure) is ONE INSDC-shaped "
-           "expression [C01 isLocText: rules out `join()` of a Join node without... and texts with stray parentheses]; (4) fewer than 10^8 bases "
-           "[C01 wf; wfSeq: 10^9]; (5) number + two blanks + range of every REFERENCE fit on one line [the bridge lemma wrapText = lines∘WrapString "
-           "is proved for single-spaced text only, the REFERENCE line has a blank run]; (6) Reference.Index is the position [C01's toRefs / refHead "
-           "number by position; a set, different Index is covered by the judge only]; (7) from wfSeq itself: single-spaced metadata and a locus "
-           "name [the two known findings]",
+           "parse_build (parse (build x o) ≈ ok x over the parser model of C01, on the judge's round-trip domain wfSeqJ): proved as "
+           "parse_build_partial (Props/C03Parse.lean) under `covered x` = wfSeqJ minus the two known findings (wfLayoutG: runs of blanks allowed "
+           "when none falls on a wrap point — general bridge lemma wrapText_breaks_general over the refined wrap relation WrappedS) && positional "
+           "Index && REFERENCE lines wrapped without loss && GbLayout.wf (toRec x). What `covered` still adds, with the reason: (1) a date, when "
+           "present, has a real month [C01 isDateText]; (2) no quotation mark in a qualifier key [C01 isQualKeyChar: such a key breaks C01's value-less "
+           "/ unquoted layouts under the 9a46c6b rule]; (3) the location text is ONE INSDC-shaped expression [C01 isLocText]; (4) fewer than 10^8 bases "
+           "[C01 wf]; (5) the REFERENCE line is not broken AT its own two blanks (`REFERENCE   1` / range on the next line: the real parser reads it, "
+           "C01's layouts never break next to a blank) — any other wrapping of the line is covered; (6) Reference.Index is the position [C01's "
+           "toRefs / refHead number by position; requested from C01: a number field in RRef]; (7) the two known findings (blank run at a wrap point, "
+           "no locus name). Items 1, 4, 6 need a change of C01's record type / lemmas (requested in notes/requests/C01-from-C03.md)",
            "parse_build_partial compares the location TEXT of each feature (Genbank.parse leaves parseLocation to C02). That the STRUCTURE "
            "parseLocation derives from that text equals the record's SequenceLocation (modulo normLoc) rests on (a) wfSeq's conjunct cacheConsistent for "
            "cached texts and (b) property C02's theorem parsed_structure (Props/C02.lean: parseLocation (print l) = ok (pembed l)) together with "
@@ -475,7 +474,10 @@ LEVEL_TEXT = ("Determinism (all map iteration orders), the wrap/unwrap inversion
               "the write-then-read clause is a theorem over the parser model of property C01 for the records C01's abstract record type "
               "expresses (parse_build_partial) and is judged on the REAL parser for every case (real Parse(real Build(x)) ≈ x, Write/Read "
               "through a file); the parser model itself is compared with the real parser on every written text.")
-LEVEL_NOTE = ("Trusted: Lean kernel; harness + pm_C03 judge; the hand transcription of go-wordwrap and of Build (tied by correspondence on every "
+LEVEL_NOTE = ("Share of the thorough tier's judged cases inside the theorems' domains (class tags /lay and /pb in the evidence's class histogram; "
+              "last thorough run, 15687 judged): build_strict_layout_partial 91.4 % (all but the two known findings), parse_build_partial 89.3 % "
+              "(the rest: the two known findings, own reference numbers, dates without a real month, quotation marks in qualifier keys, "
+              "location texts that are not one expression). Trusted: Lean kernel; harness + pm_C03 judge; the hand transcription of go-wordwrap and of Build (tied by correspondence on every "
               "case, byte for byte); the strict reader as the meaning of 'independent reader'; ASCII.")
 
 HARNESS_BIN = "run-genbank"
